@@ -23,6 +23,15 @@ pub fn exclusively_owned_areas(boxes: &[&Universal2DBox]) -> Vec<MultiPolygon> {
         .map(|(i, own)| {
             let mut own_poly = MultiPolygon::from(Polygon::from(*own));
             for (j, other) in boxes.iter().enumerate() {
+                // Duplicated boxes are handled before the polygons meet: a box covered by
+                // an identical box owns nothing, and subtracting the same rectangle twice
+                // changes nothing. Coincident polygons make the boolean operations panic.
+                if i != j && same_rectangle(own, other) {
+                    return MultiPolygon::new(vec![]);
+                }
+                if boxes[..j].iter().any(|earlier| same_rectangle(earlier, other)) {
+                    continue;
+                }
                 if distances.contains(&(i, j)) || distances.contains(&(j, i)) {
                     let clipping = MultiPolygon::from(Polygon::from(*other));
                     own_poly = own_poly.difference(&clipping);
@@ -31,6 +40,14 @@ pub fn exclusively_owned_areas(boxes: &[&Universal2DBox]) -> Vec<MultiPolygon> {
             own_poly
         })
         .collect()
+}
+
+fn same_rectangle(l: &Universal2DBox, r: &Universal2DBox) -> bool {
+    l.xc == r.xc
+        && l.yc == r.yc
+        && l.angle.unwrap_or(0.0) == r.angle.unwrap_or(0.0)
+        && l.aspect == r.aspect
+        && l.height == r.height
 }
 
 pub fn exclusively_owned_areas_normalized_shares(
